@@ -103,6 +103,17 @@ pub fn run(a: &Args) {
             files.push((format!("no-idat-c{}d{}-late-{}", c, d, String::from_utf8_lossy(&late[..])), assemble(&chunks)));
         }
     }
+    // frame rectangles whose offset + size wraps around u32 (must be refused; canvas-sized buffers otherwise get indexed out of bounds)
+    for (fw, fh, fx, fy) in [(3u32, 2u32, 0xffff_fffeu32, 0u32), (2, 3, 0, 0xffff_fffe), (0xffff_ffff, 1, 2, 0), (4, 4, 0xffff_fffd, 0xffff_fffd), (2, 2, 0x8000_0000, 0x8000_0000)] {
+        for il in [0u8, 1] {
+            let z0 = zlib_stored(&if il == 0 { vec![0u8; 3 * 4] } else { vec![0u8; crate::refimpl::adam7_rows_ref(3, 3).iter().map(|(_, _, lw)| 1 + *lw as usize).sum()] }, 64);
+            let n1 = if il == 0 { fh as usize * (1 + fw as usize) } else { 64 };
+            let z1 = zlib_stored(&vec![0u8; n1.min(4096)], 4096);
+            let chunks = vec![ihdr(3, 3, 8, 0, il), actl_chunk(2, 0), fctl_chunk(0, 3, 3, 0, 0, 1, 1, 0, 0), Chunk::new(b"IDAT", z0),
+                fctl_chunk(1, fw, fh, fx, fy, 1, 1, 0, 0), fdat_chunk(2, &z1), Chunk::new(b"IEND", vec![])];
+            files.push((format!("fctl-wrap-{}x{}+{}+{}-i{}", fw, fh, fx, fy, il), assemble(&chunks)));
+        }
+    }
     let corpus = corpus_files(if thorough { 100000 } else { 4000 }, if thorough { 600 } else { 60 }, &mut rng);
     for (n, b) in corpus {
         if let Some(r) = repair_crcs(&b) {
